@@ -1269,3 +1269,9 @@ var _ = late(func() {
 		Clause: "same rule as C08.no-discarded-pull, for batchStream.Next: a batch taken off batchC is returned on every path that follows (the batcher considers it delivered as soon as the send completes); a context test placed after the receive throws a delivered batch away",
 		Run:    subRule(func(c *Ctx, r *R) { ruleNoDiscardedPull(c, r, "stream") }, "batchStream")})
 })
+
+var _ = late(func() {
+	properties["C12"].Rules = append(properties["C12"].Rules, &Rule{ID: "C12.no-discarded-recv", Floor: 1,
+		Clause: "same rule as C10.no-discarded-recv: the receiving half of the pipe that stream.Merge's workers feed returns every value it takes off the data channel (a context test after the receive drops a value whose Send - hence the worker - has already moved on: the merged output misses it)",
+		Run:    subRule(func(c *Ctx, r *R) { ruleNoDiscardedPull(c, r, "stream") }, "pipeStream")})
+})
